@@ -71,7 +71,7 @@ let () =
           let rest = String.sub t 1 (String.length t - 1) in
           let arg () = n_of_int (int_of_string rest) in
           let apply o =
-            let (s', ok) = ostep true true content isman fuel !st o in
+            let (s', ok) = ostep true true true content isman fuel !st o in
             st := s'; if not ok then fuel_out := true in
           match t.[0] with
           | 'P' -> apply (PPush (arg ()))
@@ -81,6 +81,9 @@ let () =
           | 'G' ->
             let kept = if rest = "" then [] else List.map (fun x -> n_of_int (int_of_string x)) (String.split_on_char '.' rest) in
             apply (PGC kept)
+          | 'F' ->
+            let roots = if rest = "" then [] else List.map (fun x -> n_of_int (int_of_string x)) (String.split_on_char '.' rest) in
+            apply (PForeign roots)
           | 'O' -> apply PReopen
           | 'S' ->
             toks := ("b:" ^ show_ints (List.map int_of_n !st.o_blobs)) :: !toks;
